@@ -7,6 +7,8 @@ static int impl_eifunc_3(void){ return 55; } static void *res_eifunc_3(void){ re
 extern const int ldata_ro_4[]; extern const void *addr_ldata_ro_4(void); extern const void *l1_addr_ldata_ro_4(void); extern int read_ldata_ro_4(void); extern int l1_read_ldata_ro_4(void); const int *volatile dp_ldata_ro_4 = ldata_ro_4;
 static int impl_eifunc_5(void){ return 162; } static void *res_eifunc_5(void){ return (void*)impl_eifunc_5; } int eifunc_5(void) __attribute__((ifunc("res_eifunc_5"))); extern void *l1_addr_eifunc_5(void); extern int l1_call_eifunc_5(void); int (*volatile fp_eifunc_5)(void) = eifunc_5;
 extern int lalias_6; extern void *addr_lalias_6(void); extern int read_lalias_6(void); extern void write_lalias_6(int);
+extern int lalias_sw_7; extern void *addr_lalias_sw_7(void); extern void *waddr_lalias_sw_7(void); extern int read_lalias_sw_7(void); extern void write_lalias_sw_7(int);
+extern int lalias_st_8; extern void *addr_lalias_st_8(void); extern void *waddr_lalias_st_8(void); extern int read_lalias_st_8(void); extern void write_lalias_st_8(int);
 int main(void){
     if ((void*)lfunc_0 != addr_lfunc_0()) fail("lfunc_0: exe vs defining library");
     if ((void*)lfunc_0 != l1_addr_lfunc_0()) fail("lfunc_0: exe vs lib1");
@@ -20,16 +22,30 @@ int main(void){
     if ((void*)efunc_2 != l1_addr_efunc_2()) fail("efunc_2: exe function seen from lib1");
     if (l1_call_efunc_2() != 125) fail("efunc_2: call from lib1");
     if ((void*)fp_eifunc_3 != (void*)eifunc_3) fail("eifunc_3: ifunc address in data vs code in exe");
-    if ((void*)eifunc_3 != l1_addr_eifunc_3()) fail("eifunc_3: exe ifunc address seen from lib1");
-    if (eifunc_3() != 55 || fp_eifunc_3() != 55 || l1_call_eifunc_3() != 55) fail("eifunc_3: ifunc call result");
+    
+#ifdef EIFUNC_FROM_LIB
+    if ((void*)eifunc_3 != l1_addr_eifunc_3()) fail("eifunc_3: exe ifunc address seen from lib1"); if (l1_call_eifunc_3() != 55) fail("eifunc_3: ifunc call from lib1");
+#endif
+    if (eifunc_3() != 55 || fp_eifunc_3() != 55) fail("eifunc_3: ifunc call result");
     if ((const void*)ldata_ro_4 != addr_ldata_ro_4()) fail("ldata_ro_4: exe vs defining library");
     if ((const void*)ldata_ro_4 != l1_addr_ldata_ro_4()) fail("ldata_ro_4: exe vs lib1");
     if ((const void*)dp_ldata_ro_4 != (const void*)ldata_ro_4) fail("ldata_ro_4: data pointer vs code reference in exe");
     if (ldata_ro_4[0] != 100 || read_ldata_ro_4() != 100) fail("ldata_ro_4: initial value");
     if ((void*)fp_eifunc_5 != (void*)eifunc_5) fail("eifunc_5: ifunc address in data vs code in exe");
-    if ((void*)eifunc_5 != l1_addr_eifunc_5()) fail("eifunc_5: exe ifunc address seen from lib1");
-    if (eifunc_5() != 162 || fp_eifunc_5() != 162 || l1_call_eifunc_5() != 162) fail("eifunc_5: ifunc call result");
+    
+#ifdef EIFUNC_FROM_LIB
+    if ((void*)eifunc_5 != l1_addr_eifunc_5()) fail("eifunc_5: exe ifunc address seen from lib1"); if (l1_call_eifunc_5() != 162) fail("eifunc_5: ifunc call from lib1");
+#endif
+    if (eifunc_5() != 162 || fp_eifunc_5() != 162) fail("eifunc_5: ifunc call result");
     if ((void*)&lalias_6 != addr_lalias_6()) fail("lalias_6: weak alias in exe vs strong symbol in library");
     write_lalias_6(203); if (lalias_6 != 203) fail("lalias_6: write through strong symbol not seen through alias");
     lalias_6 = 205; if (read_lalias_6() != 205) fail("lalias_6: write through alias not seen through strong symbol");
+    if ((void*)&lalias_sw_7 != addr_lalias_sw_7() || (void*)&lalias_sw_7 != waddr_lalias_sw_7()) fail("lalias_sw_7: symbol in exe vs its alias used by the library");
+    if (lalias_sw_7 != 183 || read_lalias_sw_7() != 183) fail("lalias_sw_7: initial value");
+    lalias_sw_7 = 1183; if (read_lalias_sw_7() != 1183) fail("lalias_sw_7: write in exe not seen by the library through the alias");
+    write_lalias_sw_7(190); if (lalias_sw_7 != 190) fail("lalias_sw_7: write by the library through the alias not seen in exe");
+    if ((void*)&lalias_st_8 != addr_lalias_st_8() || (void*)&lalias_st_8 != waddr_lalias_st_8()) fail("lalias_st_8: symbol in exe vs its alias used by the library");
+    if (lalias_st_8 != 55 || read_lalias_st_8() != 55) fail("lalias_st_8: initial value");
+    lalias_st_8 = 1055; if (read_lalias_st_8() != 1055) fail("lalias_st_8: write in exe not seen by the library through the alias");
+    write_lalias_st_8(62); if (lalias_st_8 != 62) fail("lalias_st_8: write by the library through the alias not seen in exe");
     if (!bad) printf("OK\n"); return bad ? 1 : 0; }
